@@ -565,6 +565,70 @@ func checkC20(c *Ctx) {
 		r.Check(summaries[0] == summaries[1], "C20.counted-iff-valid", "same-kinds", "-", "both scanners recognise the same event kinds with the same predicates and counters: "+summaries[0],
 			"the two block scanners disagree on which transactions are bridge events or which counters they advance: resync ["+summaries[0]+"] vs relay ["+summaries[1]+"]")
 	}
+	// every transaction's command is decoded into a fresh struct: encoding/json leaves the fields a payload does
+	// not mention as they were, so a struct reused across transactions hands an incomplete command the fields of
+	// an earlier one (which then validates and is counted)
+	for _, f := range cp.Funcs {
+		if f.Blocks == nil || cp.L.IsGenerated(f.Pos()) {
+			continue
+		}
+		var sccs [][]*ssa.BasicBlock
+		ana.Calls(f, func(site ssa.CallInstruction, d ana.CalleeDesc) {
+			if d.Name != "Unmarshal" || len(site.Common().Args) < 2 {
+				return
+			}
+			dst := site.Common().Args[len(site.Common().Args)-1]
+			for i := 0; i < 4; i++ {
+				switch x := dst.(type) {
+				case *ssa.MakeInterface:
+					dst = x.X
+				case *ssa.ChangeType:
+					dst = x.X
+				}
+			}
+			// &cmd (a pointer variable holding the struct) or cmd itself
+			var al *ssa.Alloc
+			switch x := dst.(type) {
+			case *ssa.Alloc:
+				al = x
+				// a pointer variable: what it points to
+				for _, ref := range *x.Referrers() {
+					if st, ok := ref.(*ssa.Store); ok && st.Addr == ssa.Value(x) {
+						if a2, ok := st.Val.(*ssa.Alloc); ok {
+							al = a2
+						}
+					}
+				}
+			}
+			if al == nil {
+				return
+			}
+			if n := ana.NamedOf(derefType(al.Type())); n == nil || n.Obj().Name() != "Command" {
+				return
+			}
+			if sccs == nil {
+				sccs = blockSCCs(f)
+			}
+			in := site.(ssa.Instruction)
+			fresh := true
+			for _, scc := range sccs {
+				inCall, inAlloc := false, false
+				for _, b := range scc {
+					if b == in.Block() {
+						inCall = true
+					}
+					if b == al.Block() {
+						inAlloc = true
+					}
+				}
+				if inCall && !inAlloc {
+					fresh = false
+				}
+			}
+			r.Check(fresh, "C20.counted-iff-valid", "fresh-command:"+fname(f), cp.InstrPos(in), "each transaction's payload is decoded into a command struct created for it",
+				fname(f)+" decodes transaction payloads into one command struct that is created outside the transaction loop: fields a payload does not mention keep the values of an earlier transaction, so an incomplete command validates and is counted as a bridge event")
+		})
+	}
 	// the scanners rewind their counters with the context setters: a setter stores what it is given
 	for _, f := range cp.Funcs {
 		if f.Blocks == nil || f.Signature.Recv() == nil || !strings.HasPrefix(f.Name(), "SetLast") {
